@@ -28,6 +28,9 @@ func getScoreRange(left []byte, right []byte) (float64, float64, error) {
 	rangeD := left
 	if strings.ToLower(string(rangeD)) == "-inf" {
 		leftRange = common.MinScore
+	} else if l := strings.ToLower(string(rangeD)); l == "+inf" || l == "inf" {
+		// nothing is above it: an empty range as in redis, not a syntax error
+		leftRange = common.MaxScore
 	} else {
 		if left[0] == '(' {
 			isLOpen = true
@@ -47,8 +50,11 @@ func getScoreRange(left []byte, right []byte) (float64, float64, error) {
 	}
 	rangeD = right
 	isROpen := false
-	if strings.ToLower(string(rangeD)) == "+inf" {
+	if r := strings.ToLower(string(rangeD)); r == "+inf" || r == "inf" {
 		rightRange = common.MaxScore
+	} else if r == "-inf" {
+		// nothing is below it: an empty range as in redis, not a syntax error
+		rightRange = common.MinScore
 	} else {
 		if right[0] == '(' {
 			isROpen = true
@@ -72,6 +78,10 @@ func getScoreRange(left []byte, right []byte) (float64, float64, error) {
 func getLexRange(left []byte, right []byte) ([]byte, []byte, uint8, error) {
 	if len(left) == 0 || len(right) == 0 {
 		return nil, nil, 0, errInvalidRange
+	}
+	if bytes.Equal(left, []byte("+")) || bytes.Equal(right, []byte("-")) {
+		// nothing is above "+" or below "-": an empty range as in redis, not a syntax error
+		return []byte{}, []byte{}, common.RangeOpen, nil
 	}
 	var err error
 	rangeType := common.RangeClose
